@@ -20,6 +20,11 @@ CHECKS = {
    technique="TLA+ finite-map machine (FoDict.tla) and library specification (FoLib.tla); TLC-enumerated call table and TLC-generated dictionary histories executed on the real packages; recorded replies trace-validated by TLC (FoDictTrace.tla, FoLibTrace.tla)",
    text="pkg/dict is an explicit finite-map machine with several independent dictionaries, model-checked for its map laws; all histories of depth 3 and seeded simulated histories of depth 12 are replayed on the real package and every reply (bags for Keys/Values/KVs) is validated step by step by TLC. pkg/strings, pkg/buf and the frt helpers are specified as operators over character sequences / thunk logs; TLC enumerates every call for all strings up to a length bound and validates the recorded results; the formatting helpers are driven with boundary values of every basic Go kind.",
    note="Trusted: FoLib.tla/FoDict.tla as the intended meaning (argument order from pkg_all.foi, Go semantics for Split/SplitN); ASCII strings only in the enumerated universe; Sprintf1/2 compared with Go's fmt, SInterP integers with strconv."),
+ "C10": dict(
+   category="model_checking", design_ref="4.10", engine="FoEq",
+   technique="TLA+ specification of structural equality (FoEq.tla) with TLC checking the equivalence laws and enumerating every same-typed pair of a bounded value universe; results of the real frt.OpEqual/OpNotEqual on fc-emitted Go types validated by TLC (FoEqTrace.tla)",
+   text="StructEq over a bounded universe of first-order values (16 Folang types; every slice in each library-produced representation: literal, slice.New, nil from Filter/Map, Take/Skip results, PopLast/Tail views, views of the other operand's own array) is checked by TLC to be an equivalence that ignores representations. Every same-typed pair is then evaluated by the real runtime (a = b, a <> b, b = a, under recover) on values of the Go types fc itself emits for the declarations, and TLC validates each recorded result. Exhaustive under the bound.",
+   note="Trusted: FoEq.tla's StructEq; the decoder of drv_eq that builds Go values from abstract values; nesting depth <= 3; generic OpEqual is instantiated at the static Folang type."),
 }
 
 def cmd(pid, tier):
